@@ -11,8 +11,8 @@ open Goml.Dce (keys lookup_cons_self lookup_cons_ne)
 attribute [local irreducible] Goml.GoCompile.vn Goml.GoCompile.gid Goml.GoCompile.rn
 
 theorem toGVs_of_args {env : Env} {η : Hp} : ∀ {vs : List Val} {gvs : List GVal} {tys : List Ty}, ArgsRel env η vs gvs tys →
-    toGVs env η vs = some gvs ∧ HasTys env η vs tys ∧ vs.length = tys.length ∧ gvs.length = tys.length
-  | [], [], [], _ => by simp [toGVs, HasTys]
+    VRels env η vs tys gvs ∧ HasTys env η vs tys ∧ vs.length = tys.length ∧ gvs.length = tys.length
+  | [], [], [], _ => by simp [VRels, HasTys]
   | [], [], _ :: _, h => by simp [ArgsRel] at h
   | [], _ :: _, _, h => by simp [ArgsRel] at h
   | _ :: _, [], _, h => by simp [ArgsRel] at h
@@ -21,41 +21,44 @@ theorem toGVs_of_args {env : Env} {η : Hp} : ∀ {vs : List Val} {gvs : List GV
     simp only [ArgsRel] at h
     obtain ⟨h1, h2, h3⟩ := h
     obtain ⟨i1, i2, i3, i4⟩ := toGVs_of_args h3
-    simp [toGVs, HasTys, h1, h2, i1, i2, i3, i4]
+    simp [VRels, HasTys, h1, h2, i1, i2, i3, i4]
+
+/-- related lists are related argument lists -/
+theorem args_of_VRels {env : Env} {η : Hp} : ∀ {vs : List Val} {tys : List Ty} {gvs : List GVal}, VRels env η vs tys gvs →
+    HasTys env η vs tys → ArgsRel env η vs gvs tys
+  | [], [], [], _, _ => trivial
+  | [], [], _ :: _, h, _ | [], _ :: _, _, h, _ | _ :: _, [], _, h, _ | _ :: _, _ :: _, [], h, _ => by simp [VRels] at h
+  | v :: vs, t :: tys, g :: gvs, h, ht => by
+    simp only [VRels] at h; simp only [HasTys] at ht
+    exact ⟨h.1, ht.1, args_of_VRels h.2 ht.2⟩
 
 /-- the value of a struct and its Go image -/
 theorem struct_value {env : Env} {η : Hp} (hS : structsClosed env = true) {sn : String} (hsn : sn ∈ goodStructs env)
     {d : StructDef} (hd : env.getStruct sn = some d) {vs : List Val} {gvs : List GVal}
     (hargs : ArgsRel env η vs gvs (d.fields.map (·.2))) :
-    toGV env η (.structV sn vs) = some (.struct (gid sn) ((d.fields.map fun f => gid f.1).zip gvs)) ∧
+    VRel env η (.structV sn vs) (.struct sn) (.struct (gid sn) ((d.fields.map fun f => gid f.1).zip gvs)) ∧
       HasTy env η (.structV sn vs) (.struct sn) := by
   obtain ⟨h1, h2, _, _⟩ := toGVs_of_args hargs
-  refine ⟨by simp [toGV, hd, h1], ?_⟩
+  refine ⟨by simp only [VRel, hd]; exact ⟨gvs, h1, rfl⟩, ?_⟩
   simp only [HasTy, hd]
   exact ⟨trivial, hsn, h2⟩
 
 /-- the fields of a struct value, position by position -/
 theorem struct_field {env : Env} {η : Hp} : ∀ {vs : List Val} {gs : List GVal} {tys : List Ty} (i : Nat) {t : Ty},
-    toGVs env η vs = some gs → HasTys env η vs tys → tys[i]? = some t →
-    ∃ v g, vs[i]? = some v ∧ gs[i]? = some g ∧ toGV env η v = some g ∧ HasTy env η v t
+    VRels env η vs tys gs → HasTys env η vs tys → tys[i]? = some t →
+    ∃ v g, vs[i]? = some v ∧ gs[i]? = some g ∧ VRel env η v t g ∧ HasTy env η v t
   | [], gs, tys, i, t, _, ht, hi => by
     cases tys <;> simp [HasTys] at ht; simp at hi
   | v :: vs, gs, [], i, t, _, ht, _ => by simp [HasTys] at ht
-  | v :: vs, gs, t0 :: tys, i, t, hg, ht, hi => by
-    simp only [toGVs] at hg
-    cases h1 : toGV env η v with
-    | none => rw [h1] at hg; simp at hg
-    | some g =>
-      cases h2 : toGVs env η vs with
-      | none => rw [h1, h2] at hg; simp at hg
-      | some gs' =>
-        rw [h1, h2] at hg; simp only [Option.some.injEq] at hg; subst hg
-        simp only [HasTys] at ht
-        cases i with
-        | zero => simp at hi; subst hi; exact ⟨v, g, by simp, by simp, h1, ht.1⟩
-        | succ i =>
-          simp only [List.getElem?_cons_succ] at hi ⊢
-          exact struct_field i h2 ht.2 hi
+  | v :: vs, [], t0 :: tys, i, t, hg, _, _ => by simp [VRels] at hg
+  | v :: vs, g :: gs', t0 :: tys, i, t, hg, ht, hi => by
+    simp only [VRels] at hg
+    simp only [HasTys] at ht
+    cases i with
+    | zero => simp at hi; subst hi; exact ⟨v, g, by simp, by simp, hg.1, ht.1⟩
+    | succ i =>
+      simp only [List.getElem?_cons_succ] at hi ⊢
+      exact struct_field i hg.2 ht.2 hi
 
 /-- the fields of a compiled struct literal evaluate to the declared names zipped with the values -/
 theorem fields_both {env : Env} {η : Hp} {file : AFile} {G : List String} (P : Prog) {F : GFile} (ht : TyLink env F) {Γ : Ctx}
@@ -85,7 +88,7 @@ theorem fields_both {env : Env} {η : Hp} {file : AFile} {G : List String} (P : 
       obtain ⟨v, gv, hs, hg, hrel, hty⟩ := imm_both P ht ha hr hfr
       obtain ⟨vs, gvs, hrs, hgs, hss⟩ := ih has
       have ht := scalarEq_eq hta
-      refine ⟨v :: vs, gv :: gvs, ⟨hrel, by show HasTy env η v f.2; rw [← ht]; exact hty, hrs⟩, fun gw => ?_, fun n w => ?_⟩
+      refine ⟨v :: vs, gv :: gvs, ⟨by show VRel env η v f.2 gv; rw [← ht]; exact hrel, by show HasTy env η v f.2; rw [← ht]; exact hty, hrs⟩, fun gw => ?_, fun n w => ?_⟩
       · have := evf_cons (n := gid f.1) (hg gw) (hgs gw)
         simpa [structFieldsOf, compileImms] using this
       · cases n with
@@ -178,7 +181,7 @@ theorem tfields_both {env : Env} {η : Hp} {file : AFile} {G : List String} (P :
       obtain ⟨v, gv, hs, hg, hrel, hty⟩ := imm_both P ht ha hr hfr
       obtain ⟨vs, gvs, hrs, hgs, hss⟩ := ih (i + 1) has
       have htt := scalarEq_eq hta
-      refine ⟨v :: vs, gv :: gvs, ⟨hrel, htt ▸ hty, hrs⟩, fun gw => ?_, fun n w => ?_⟩
+      refine ⟨v :: vs, gv :: gvs, ⟨htt ▸ hrel, htt ▸ hty, hrs⟩, fun gw => ?_, fun n w => ?_⟩
       · have := evf_cons (n := fieldN i) (hg gw) (hgs gw)
         simpa [tupleFields, compileImms, fieldNames] using this
       · cases n with
@@ -197,10 +200,10 @@ theorem tfields_both {env : Env} {η : Hp} {file : AFile} {G : List String} (P :
 theorem enum_value {env : Env} {η : Hp} {n : String} (hn : n ∈ goodEnums env) {d : EnumDef} (hd : env.getEnum n = some d)
     {idx : Nat} {vname : String} {tys : List Ty} (hv : d.variants[idx]? = some (vname, tys))
     {vs : List Val} {gvs : List GVal} (hargs : ArgsRel env η vs gvs tys) :
-    toGV env η (.enumV n idx vs) = some (.struct (variantGoName env n vname) ((fieldNames 0 tys.length).zip gvs)) ∧
+    VRel env η (.enumV n idx vs) (.enum n) (.struct (variantGoName env n vname) ((fieldNames 0 tys.length).zip gvs)) ∧
       HasTy env η (.enumV n idx vs) (.enum n) := by
   obtain ⟨h1, h2, _, h4⟩ := toGVs_of_args hargs
-  refine ⟨by simp [toGV, hd, h1, hv, h4], ?_⟩
+  refine ⟨by simp only [VRel, hd, hv]; exact ⟨gvs, h1, by rw [h4]⟩, ?_⟩
   simp only [HasTy, hd, hv]
   exact ⟨trivial, hn, h2⟩
 
